@@ -3,9 +3,11 @@ package main
 // C12 — a host-supplied OS mediates all file, environment, process and stdio access.
 //
 // Real code: risor.NewConfig/WithOS/WithImporter/WithConcurrency, compiler, vm.New/Run/RunCode/
-// Call/Clone, the os, filepath and fmt modules, file objects, print/printf and the shell-style
-// builtins, all in-process.  Every case is a host-level history (create a VM with or without
-// WithOS, run, clone, call, RunCode with WithOS; each run with or without an OS in the context)
+// Call/Clone, risor.EvalCode/Eval/Call with risor.WithVM, the os, filepath and fmt modules, file objects,
+// print/printf and the shell-style builtins, all in-process.  Every case is a host-level history (create
+// a VM with or without WithOS, run, clone, call, RunCode with WithOS, re-enter the machine through risor's
+// top-level API with or without risor.WithOS, fire a kept script callback through the clone-call function
+// with a context of the host's own; each run with or without an OS in the context)
 // of one script, in which one operation sits at the bottom of a random nesting of execution
 // contexts (closure call, builtin callback, try, defer, spawn, go, f.spawn, clone-call,
 // imported-module function, imported-module body).
@@ -832,6 +834,14 @@ func (o *c12RecOS) reset() {
 		ros.WithStdout(ros.NewBufferFile(nil)), ros.WithStderr(ros.NewBufferFile(nil)))
 }
 
+// settle puts the file system, environment, working directory and streams back into their initial state and
+// keeps what was recorded
+func (o *c12RecOS) settle() {
+	ex := o.exits
+	o.reset()
+	o.exits = ex
+}
+
 func (o *c12RecOS) rec(method string, args ...string) {
 	for i := range args {
 		args[i] = c12Esc(args[i])
@@ -1090,7 +1100,15 @@ func c12Build(w *c12World, op *c12Op, path string) c12Script {
 		case 's':
 			x = "spawn(" + sep("func("+P+") { return "+x+" }", A) + ").wait()"
 		case 'g':
-			x = "func(" + P + ") { ch := chan(1); go func(" + sep(P, "ch") + ") { r := " + x + "; ch <- r }(" + sep(A, "ch") + "); return <-ch }(" + A + ")"
+			// an error raised inside the goroutine would end it before the send and leave the receiver waiting for
+			// the deadline (it happens when a changed tree lets an operation such as a user lookup reach the real
+			// OS, where it fails): the goroutine reports the error through the channel instead (not for the gf
+			// operations, whose wrappers must all take gf as a parameter)
+			y := x
+			if !op.has('g') {
+				y = "try(func() { return " + x + " }, func(e) { return \"ERR:\" + string(e) })"
+			}
+			x = "func(" + P + ") { ch := chan(1); go func(" + sep(P, "ch") + ") { r := " + y + "; ch <- r }(" + sep(A, "ch") + "); return <-ch }(" + A + ")"
 		case 'm':
 			x = "func(" + P + ") { return " + x + " }.spawn(" + A + ").wait()"
 		case 'k':
@@ -1113,14 +1131,19 @@ func c12Build(w *c12World, op *c12Op, path string) c12Script {
 	} else {
 		main += "gf := nil\n"
 	}
-	main += "func entry() { return " + x + " }\n" + x + "\n"
+	// register(entry): a host builtin that keeps the clone-call function of the context it is called with
+	// together with the function, so that the host can fire the callback later (event F)
+	// mark(): a host builtin that does something only inside risor.Call (event L), where the top-level code and
+	// entry() run within one host call: it puts the recording OSes' file systems back into their initial state,
+	// as the harness does between any two executing events, and separates the two parts of the call log
+	main += "func entry() { mark(); return " + x + " }\nregister(entry)\n" + x + "\n"
 	return c12Script{main: main, modules: mods}
 }
 
 // ---------------------------------------------------------------- cases and their execution
 
 type c12Case struct {
-	Events []string `json:"events"` // N:<o> R:<c> C:<c> K U O:<o>:<c>
+	Events []string `json:"events"` // N:<o> R:<c> C:<c> K U O:<o>:<c> E:<o>:<c> L:<o>:<c> F:<c>
 	Path   string   `json:"path"`
 	Op     string   `json:"op"`
 }
@@ -1162,6 +1185,19 @@ func c12Canon(log []string, T string) []string {
 			}
 		}
 		out = append(out, l)
+	}
+	return out
+}
+
+// separator between the two parts (top-level code, entry()) of the call log of a risor.Call event
+const c12LogSep = "--"
+
+func c12DropSep(log []string) []string {
+	out := log[:0]
+	for _, l := range log {
+		if l != c12LogSep {
+			out = append(out, l)
+		}
 	}
 	return out
 }
@@ -1213,8 +1249,36 @@ func c12RunCaseD(w *c12World, cs c12Case, deadline time.Duration) (results []c12
 		}
 		return res
 	})
+	// the host keeps, per machine, the clone-call function handed to its builtin during the machine's
+	// latest top-level run, and the script function to call back
+	type c12Reg struct {
+		call object.CallFunc
+		fn   *object.Function
+	}
+	regs := map[*vm.VirtualMachine]c12Reg{}
+	var running *vm.VirtualMachine
+	register := object.NewBuiltin("register", func(ctx context.Context, args ...object.Object) object.Object {
+		fn, ok := args[0].(*object.Function)
+		if !ok {
+			return object.Errorf("register: expected a function")
+		}
+		if call, ok := object.GetCloneCallFunc(ctx); ok && running != nil {
+			regs[running] = c12Reg{call, fn}
+		}
+		return object.Nil
+	})
+	inAPICall := false
+	mark := object.NewBuiltin("mark", func(ctx context.Context, args ...object.Object) object.Object {
+		if inAPICall {
+			for _, o := range oses {
+				o.settle()
+			}
+			w.add(gen, c12LogSep)
+		}
+		return object.Nil
+	})
 	baseOpts := func(osID string) []risor.Option {
-		opts := []risor.Option{risor.WithConcurrency(), risor.WithGlobal("clonecall", clonecall)}
+		opts := []risor.Option{risor.WithConcurrency(), risor.WithGlobal("clonecall", clonecall), risor.WithGlobal("register", register), risor.WithGlobal("mark", mark)}
 		if o := getOS(osID); o != nil {
 			opts = append(opts, risor.WithOS(o))
 		}
@@ -1247,6 +1311,19 @@ func c12RunCaseD(w *c12World, cs c12Case, deadline time.Duration) (results []c12
 	}
 	var pool []*vm.VirtualMachine
 	cur := 0
+	// all machines of a history are configured from one risor.Config (one globals map, hence one `os`
+	// module object); an evaluation through risor's API on an existing machine passes the same globals
+	var sharedGlobals map[string]any
+	apiOpts := func(m *vm.VirtualMachine, osID string, minimal bool) []risor.Option {
+		opts := []risor.Option{risor.WithVM(m), risor.WithoutDefaultGlobals()}
+		if !minimal {
+			opts = append(opts, risor.WithGlobals(sharedGlobals), risor.WithConcurrency(), risor.WithImporter(imp))
+		}
+		if o := getOS(osID); o != nil {
+			opts = append(opts, risor.WithOS(o))
+		}
+		return opts
+	}
 	finish := func(res object.Object, err error) {
 		r := c12EvResult{}
 		if err != nil {
@@ -1258,7 +1335,7 @@ func c12RunCaseD(w *c12World, cs c12Case, deadline time.Duration) (results []c12
 				r.Result = s.Value()
 			}
 		}
-		r.Log = c12Canon(w.takeLog(), w.T)
+		r.Log = c12DropSep(c12Canon(w.takeLog(), w.T))
 		r.Effects = w.realEffects()
 		r.Leaks = w.leaks(r.Result)
 		for _, o := range oses {
@@ -1274,13 +1351,58 @@ func c12RunCaseD(w *c12World, cs c12Case, deadline time.Duration) (results []c12
 		}()
 		return f()
 	}
-	for _, ev := range cs.Events {
+	for evIdx, ev := range cs.Events {
 		f := strings.Split(ev, ":")
+		if len(pool) > 0 {
+			running = pool[cur]
+		}
 		switch f[0] {
 		case "N":
 			cfg := risor.NewConfig(append(baseOpts(f[1]), risor.WithImporter(imp))...)
+			sharedGlobals = cfg.Globals()
 			pool = []*vm.VirtualMachine{vm.New(mainCode, cfg.VMOpts()...)}
 			cur = 0
+		case "E":
+			// risor.EvalCode / risor.Eval on the existing machine; the form varies with the position of the event:
+			// precompiled code with the full option set, precompiled code with nothing but WithVM (+ WithOS), source text
+			m := pool[cur]
+			form := (evIdx + len(cs.Path)) % 3
+			for _, later := range cs.Events[evIdx+1:] {
+				// vm.Clone() activates the code the machine was created with (vm.main), not the code of its latest
+				// RunCode: a clone made after an evaluation of freshly compiled source has no `entry` — a matter of
+				// the VM's life cycle, not of the OS; such histories use the precompiled code
+				if later == "K" && form == 2 {
+					form = 0
+				}
+			}
+			finish(protect(func() (object.Object, error) {
+				switch form {
+				case 0:
+					return risor.EvalCode(mkctx(f[2]), mainCode, apiOpts(m, f[1], false)...)
+				case 1:
+					return risor.EvalCode(mkctx(f[2]), mainCode, apiOpts(m, f[1], true)...)
+				default:
+					return risor.Eval(mkctx(f[2]), script.main, apiOpts(m, f[1], false)...)
+				}
+			}))
+		case "L":
+			m := pool[cur]
+			finish(protect(func() (object.Object, error) {
+				inAPICall = true
+				defer func() { inAPICall = false }()
+				return risor.Call(mkctx(f[2]), mainCode, "entry", nil, apiOpts(m, f[1], (evIdx+len(cs.Path))%2 == 1)...)
+			}))
+		case "F":
+			// the host fires the kept callback with a context of its own: derived from the harness's background
+			// context (not from any evaluation context), carrying an OS or not
+			reg, ok := regs[pool[cur]]
+			if !ok {
+				results = append(results, c12EvResult{Err: "no callback registered for this machine (harness defect)"})
+				continue
+			}
+			finish(protect(func() (object.Object, error) {
+				return reg.call(mkctx(f[1]), reg.fn, nil)
+			}))
 		case "R":
 			m := pool[cur]
 			finish(protect(func() (object.Object, error) {
@@ -1446,6 +1568,17 @@ func (h *c12Hist) clone() {
 func (h *c12Hist) root()               { h.evs = append(h.evs, "U"); h.cur = 0 }
 func (h *c12Hist) call(c string)       { h.evs = append(h.evs, "C:"+c) }
 func (h *c12Hist) runCode(o, c string) { h.evs = append(h.evs, "O:"+o+":"+c); h.ran[h.cur] = true }
+func (h *c12Hist) eval(o, c string)    { h.evs = append(h.evs, "E:"+o+":"+c); h.ran[h.cur] = true }
+func (h *c12Hist) apiCall(o, c string) { h.evs = append(h.evs, "L:"+o+":"+c); h.ran[h.cur] = true }
+
+// a callback can only be fired on a machine whose top-level code has run (it registers the callback)
+func (h *c12Hist) callback(c string) bool {
+	if !h.ran[h.cur] {
+		return false
+	}
+	h.evs = append(h.evs, "F:"+c)
+	return true
+}
 func (h *c12Hist) run(c string) bool {
 	if h.ran[h.cur] {
 		return false
@@ -1485,21 +1618,37 @@ func c12GenEvents(r *RNG, supplied bool) []string {
 	default:
 		n = 3 + r.Intn(4)
 	}
+	// the OS named by an API evaluation: when the case is supplied throughout the machine either has an OS
+	// already (vmOS given: every clone inherits one) or the context carries one, so naming none is allowed
+	optOS := func() string {
+		if supplied && r.Chance(45) {
+			return pickOS()
+		}
+		return "-"
+	}
 	for i := 0; i < n; i++ {
 		switch x := r.Intn(100); {
-		case x < 35:
+		case x < 26:
 			h.clone()
 			if r.Chance(70) {
 				h.call(ctxOS())
 			}
-		case x < 60:
+		case x < 42:
 			h.call(ctxOS())
-		case x < 72:
+		case x < 50:
 			if !h.run(ctxOS()) {
 				h.call(ctxOS())
 			}
-		case x < 82:
+		case x < 58:
 			h.root()
+		case x < 68:
+			h.eval(optOS(), ctxOS())
+		case x < 74:
+			h.apiCall(optOS(), ctxOS())
+		case x < 88:
+			if !h.callback(ctxOS()) {
+				h.call(ctxOS())
+			}
 		default:
 			if supplied {
 				h.runCode(pickOS(), ctxOS())
@@ -1518,7 +1667,7 @@ func c12GenMixed(r *RNG) []string {
 	var h c12Hist
 	h.start(pick(), pick())
 	for i, n := 0, 1+r.Intn(4); i < n; i++ {
-		switch r.Intn(5) {
+		switch r.Intn(8) {
 		case 0:
 			h.clone()
 			h.call(pick())
@@ -1530,6 +1679,14 @@ func c12GenMixed(r *RNG) []string {
 			}
 		case 3:
 			h.root()
+		case 4:
+			h.eval(pick(), pick())
+		case 5:
+			h.apiCall(pick(), pick())
+		case 6:
+			if !h.callback(pick()) {
+				h.call(pick())
+			}
 		default:
 			h.runCode([]string{"A", "B"}[r.Intn(2)], pick())
 		}
@@ -1540,7 +1697,7 @@ func c12GenMixed(r *RNG) []string {
 func c12TopRuns(evs []string) int {
 	n := 0
 	for _, e := range evs {
-		if e[0] == 'R' || e[0] == 'O' {
+		if e[0] == 'R' || e[0] == 'O' || e[0] == 'E' || e[0] == 'L' {
 			n++
 		}
 	}
@@ -1552,7 +1709,7 @@ func c12OneTopRun(evs []string) []string {
 	out := make([]string, 0, len(evs))
 	seen := false
 	for _, e := range evs {
-		if e[0] == 'R' || e[0] == 'O' {
+		if e[0] == 'R' || e[0] == 'O' || e[0] == 'E' || e[0] == 'L' {
 			if seen {
 				f := strings.Split(e, ":")
 				e = "C:" + f[len(f)-1]
@@ -1564,11 +1721,48 @@ func c12OneTopRun(evs []string) []string {
 	return out
 }
 
+// c12Normalize makes a history executable for the operation: risor.Call (L) runs the top-level code and then
+// entry(), so an operation that ends the top-level code in a fatal error never reaches entry() — such
+// operations are evaluated with risor.EvalCode (E) instead; a callback (F) needs a machine whose top-level
+// code has run (it registers the callback), otherwise the host calls entry() directly (C).
+func c12Normalize(op *c12Op, evs []string) []string {
+	out := make([]string, 0, len(evs))
+	var ran []bool
+	cur := 0
+	for _, e := range evs {
+		switch e[0] {
+		case 'N':
+			ran, cur = []bool{false}, 0
+		case 'K':
+			ran = append(ran, false)
+			cur = len(ran) - 1
+		case 'U':
+			cur = 0
+		case 'L':
+			if op.fatal() {
+				e = "E" + e[1:]
+			}
+			ran[cur] = true
+		case 'R', 'O', 'E':
+			ran[cur] = true
+		case 'F':
+			if !ran[cur] {
+				e = "C" + e[1:]
+			}
+		}
+		out = append(out, e)
+	}
+	return out
+}
+
 func c12ExecCount(evs []string) int {
 	n := 0
 	for _, e := range evs {
-		if e[0] == 'R' || e[0] == 'C' || e[0] == 'O' {
+		if e[0] == 'R' || e[0] == 'C' || e[0] == 'O' || e[0] == 'E' || e[0] == 'F' {
 			n++
+		}
+		if e[0] == 'L' { // risor.Call: the top-level code, then entry()
+			n += 2
 		}
 	}
 	return n
@@ -1653,6 +1847,11 @@ func c12Judge(e *Env, w *c12World, cs c12Case, exp []c12Expect, res []c12EvResul
 			e.R.H("event", "back to root VM")
 		case "O":
 			e.R.H("event", "RunCode with WithOS")
+		case "E", "L":
+			e.R.H("event", map[string]string{"E": "risor.EvalCode/Eval + WithVM", "L": "risor.Call + WithVM"}[f[0]]+" "+
+				map[bool]string{true: "with WithOS", false: "without WithOS"}[f[1] != "-"]+", "+map[bool]string{true: "ctx with OS", false: "bare ctx"}[f[2] != "-"])
+		case "F":
+			e.R.H("event", "host fires kept callback (clone-call function), own ctx "+map[bool]string{true: "with OS", false: "bare"}[f[1] != "-"])
 		}
 	}
 	if killedAt >= 0 {
@@ -1786,7 +1985,9 @@ func c12_trunc(s string, n int) string {
 
 func c12_runC12(e *Env) {
 	e.R.Rule = "a case is (host history, nesting path, operation): the history creates a VM with or without risor.WithOS, then runs/clones/calls/" +
-		"RunCodes it with or without an OS in the context; the path nests closure call, list.map callback, try, defer, spawn(), go, f.spawn(), " +
+		"RunCodes it with or without an OS in the context, re-enters it through risor.EvalCode/Eval/Call + risor.WithVM with or without risor.WithOS " +
+		"(three forms: precompiled code with all options, with WithVM only, source text), and fires the script callback that a host builtin kept together " +
+		"with the clone-call function of the machine's latest top-level run, with a context of the host's own (bare or carrying an OS); the path nests closure call, list.map callback, try, defer, spawn(), go, f.spawn(), " +
 		"clone-call, imported-module function and imported-module body to depth 0-5 around one of the operations (every exported function of the " +
 		"os, filepath and fmt modules, the shell-style builtins, print/printf, every file method, with argument shapes incl. error paths); " +
 		"directed part: every operation x every single context kind x both routes x {top-level run, cloned VM call}; random part seeded. " +
@@ -1867,6 +2068,11 @@ func c12_runC12(e *Env) {
 		{"N:A", "R:B"},             // both
 		{"N:-", "R:A", "C:B"},      // same VM, two runs with different context OSes
 		{"N:A", "R:-", "O:B:-"},    // same VM, WithOS changed by a later RunCode
+		{"N:A", "R:-", "E:-:-"},    // machine built with an OS, re-entered through risor.EvalCode/Eval + WithVM naming none
+		{"N:-", "E:A:-", "L:-:-"},  // OS given by the first API evaluation, re-entered through risor.Call + WithVM naming none
+		{"N:A", "R:-", "F:-"},      // the host fires the kept callback with a bare context of its own
+		{"N:-", "R:A", "F:B"},      // … with a context of its own that carries another OS
+		{"N:A", "R:B", "K", "R:-", "U", "F:-", "E:C:-", "F:-"}, // callbacks of the root machine around a clone's run and a re-option
 	}
 	// histories in which some run has no OS supplied (only operations that are harmless on the real OS)
 	mixedHist := [][]string{
@@ -1874,6 +2080,8 @@ func c12_runC12(e *Env) {
 		{"N:-", "R:-", "O:B:-", "K", "C:B"},
 		{"N:-", "R:-", "K", "C:A"},
 		{"N:-", "R:A", "C:-"},
+		{"N:-", "R:A", "F:-"},          // the run was supplied through its context, the later callback is not
+		{"N:-", "R:-", "F:A", "E:-:-"}, // only the callback is supplied
 	}
 	for i := range c12Ops {
 		op := &c12Ops[i]
@@ -1891,7 +2099,7 @@ func c12_runC12(e *Env) {
 				if c12FixPath(op, p) != p {
 					continue
 				}
-				cases = append(cases, c12Case{Events: h, Path: p, Op: op.name})
+				cases = append(cases, c12Case{Events: c12Normalize(op, h), Path: p, Op: op.name})
 			}
 		}
 		if op.has('r') {
@@ -1926,6 +2134,7 @@ func c12_runC12(e *Env) {
 			// global sharing between clones (C07/C14), not of OS mediation: keep one top-level run
 			evs = c12OneTopRun(evs)
 		}
+		evs = c12Normalize(op, evs)
 		p := c12FixPath(op, c12GenPath(rng, op, c12ExecCount(evs) > 1))
 		cases = append(cases, c12Case{Events: evs, Path: p, Op: op.name})
 	}
